@@ -155,7 +155,7 @@ def run(ctx):
             spec['grammar'].append(['A2', '0.0625'])
         name = f"c14cli{i}"
         d = common.install_ruleset(spec, name)
-        for fl in (['--skip_brute'], ['--all_lower'], ['--skip_brute', '--all_lower']):
+        for fl in ([], ['--skip_brute'], ['--all_lower'], ['--skip_brute', '--all_lower']):
             # one session name for the three flag settings, one after the other: the save file of the previous setting is still there
             # when the next new session starts - what it holds must not decide anything
             sess = f"c14s{i}"
@@ -166,6 +166,19 @@ def run(ctx):
                 viol.append({'property': 'C14', 'kind': 'load-ignores-saved-flags', 'flags': fl,
                              'first_run_lines': o1.count(b'\n'), 'resumed_lines': o2.count(b'\n'),
                              'witness': {'spec': spec, 'cli': fl}})
+            # a restored session runs with the flags of its save file, whatever is typed next to --load
+            if ctx.quick and len(fl) == 2:
+                continue
+            cands = [x for x in (['--skip_brute'], ['--all_lower'], ['--skip_brute', '--all_lower']) if not set(x) <= set(fl)]
+            if not cands:
+                continue
+            typed = rng.choice(cands)
+            o3, e3, rc3 = common.run_cli('pcfg_guesser.py', ['-s', sess, '--load'] + typed, stdin='pipe-open')
+            cli_runs += 1
+            if o3 != o1:
+                viol.append({'property': 'C14', 'kind': 'load-applies-typed-flags', 'saved_flags': fl, 'typed_with_load': typed,
+                             'first_run_lines': o1.count(b'\n'), 'resumed_lines': o3.count(b'\n'),
+                             'witness': {'spec': spec, 'cli': fl, 'typed': typed}})
     cases += cli_runs
     if ctx.driver_ok:
         out = common.run_driver(ops)
@@ -210,9 +223,9 @@ def replay(ctx, payload):
                 common.run_cli('pcfg_guesser.py', ['-r', 'replay14', '-s', 'replay14'] + fl0, stdin='pipe-open')
                 break
         o1, _, _ = common.run_cli('pcfg_guesser.py', ['-r', 'replay14', '-s', 'replay14'] + w['cli'], stdin='pipe-open')
-        o2, _, _ = common.run_cli('pcfg_guesser.py', ['-s', 'replay14', '--load'], stdin='pipe-open')
+        o2, _, _ = common.run_cli('pcfg_guesser.py', ['-s', 'replay14', '--load'] + w.get('typed', []), stdin='pipe-open')
         if o1 != o2:
-            out.append({'kind': 'load-ignores-saved-flags'})
+            out.append({'kind': 'load-applies-typed-flags' if w.get('typed') else 'load-ignores-saved-flags'})
     elif 'spec' in w:
         d = common.write_ruleset(os.path.join(common.scratch_dir('rules'), 'replay14'), w['spec'])
         g0 = common.load_grammar(d)
